@@ -295,6 +295,24 @@ class Ctx:
             return False, txt
         raise Undecided("apalache failed on %s:\n%s" % (module, txt[-2000:]))
 
+    def env_variants(self):
+        """What the library's source consults besides its arguments (driver `envprobe`, a syntactic scan): for the environment variables it
+        names, a few settings under which the caller re-runs its scenarios; everything else (the clock, other files, computed names) is a drift line."""
+        if getattr(self, "_envp", None) is None:
+            try:
+                self._envp = self.drv_json("envprobe", "-repo", REPO)
+            except Exception:
+                self._envp = dict(env=[], calls=[], dynamic=False)
+            p = self._envp
+            if p.get("env") or p.get("calls") or p.get("dynamic"):
+                self.drift("the library's source consults its environment: variables %s, calls %s%s" %
+                           (p.get("env"), p.get("calls"), ", and variable names computed at run time" if p.get("dynamic") else ""))
+            self.cover["environment_consulted_by_the_source"] = dict(variables=p.get("env", []), calls=p.get("calls", []))
+        names = self._envp.get("env") or []
+        if not names:
+            return []
+        return [{n: v for n in names} for v in ("1", "true", "debug", "/dev/stderr")]
+
     # ---------- verdicts ----------
     def sample(self, s):
         if len(self.samples) < 6:
